@@ -1,7 +1,8 @@
 INIT Init
 NEXT Next
 CONSTANTS
-  Kinds = {"arg", "type", "sig", "function", "property", "signal", "vfunc", "field", "value", "layout"}
+  Dev = {}
+  Kinds = {"arg", "type", "sig", "function", "property", "signal", "vfunc", "field", "value", "attrs", "constsize", "api", "layout"}
   Strict = FALSE
   Full = FALSE
   MaxCnt = 2
@@ -9,4 +10,5 @@ INVARIANT BuildEncodes
 INVARIANT InvTypeSane
 INVARIANT InvLayout
 INVARIANT InvAccessor
+INVARIANT InvApi
 CHECK_DEADLOCK FALSE
